@@ -55,7 +55,7 @@ def f42_region(script):
     return None
 
 
-def run_c07(script, rng, summary):
+def run_c07(script, rng, summary, driver=None):
     real = pslib.Real()
     res = real.run(script)
     if not objectives_of(script) or len(real.problem.objectives) == 0:
@@ -95,6 +95,10 @@ def run_c07(script, rng, summary):
     v = search_residue(script, summary)
     if v:
         return v
+    if driver is not None:
+        v = model_optimum_probe(script, driver, summary)
+        if v:
+            return v
     v = worst_first_probe(script, real, rng, summary, "run_c07")
     if v:
         return v
@@ -110,6 +114,76 @@ def run_c07(script, rng, summary):
     if a.get("result") and c.get("result") is False and c.get("base_status") == "sat" and k >= 1:
         return {"what": f"max_iter={k}: no schedule returned although the first check is satisfiable", "runs": [a, c]}
     return None
+
+
+def model_optimum_probe(script, driver, summary):
+    """the optimum the library reports against the assertion list of the *Lean model* of the same script (the list the
+    exactness theorems `C07_core_attainable` / `C07_groups_attainable` / `C07_weighted_attainable` speak about): when the
+    library's own constraint system admits nothing better than the reported value but the model's list does, the
+    reported value is not the optimum of the documented problem — whatever both optimisers agree on"""
+    from harness import sem, props as P
+    real = pslib.Real()
+    real.run(script)
+    if real.problem is None or len(real.problem.objectives) != 1:
+        return None
+    if real.buffers:
+        # arrays / pulse functions: the harness does not rebuild them from the model's printout as z3 terms of the
+        # real sorts (the ENC channel compares them as text), so the probe stays on problems without buffers
+        count(summary, "run_c07_model_list_probe_skipped_buffers")
+        return None
+    cfg = {"optimizer": "incremental"}
+    setup = smrun.objective_setup(real, cfg, script)
+    if setup is None:
+        return None
+    target, is_min = setup
+    with smrun.silent():
+        s = ps.SchedulingSolver(problem=real.problem, max_time=10, **cfg)
+        try:
+            sol = s.solve()
+        except Exception:  # noqa: BLE001
+            return None
+    if not sol:
+        return None
+    own = list(s._solver.assertions())
+    try:
+        v = smrun.value_of(s._model, target)
+    except Exception:  # noqa: BLE001
+        return None
+    driver.reset()
+    for d in script:
+        if pslib.to_line(d) is not None:
+            driver.send(pslib.to_line(d))
+    _, lean_lines = driver.send_multi("(initialize (debug false))")
+    lean = [l.split("\t", 1)[1] for l in lean_lines if "\t" in l]
+    sub = dict(P.subst_for(real))
+    try:
+        sub.update(z3walk.token_alignment([z3walk.sx(a) for a in own], lean))
+        b = sem.Builder(sem.sorts_of(own), sub)
+        model_fs = [b.fml(sem.parse_sexp(l)) for l in lean]
+    except Exception:  # noqa: BLE001
+        count(summary, "run_c07_model_list_unbuildable")
+        return None
+    better = target < v if is_min else target > v
+    chk = z3.Solver()
+    chk.set("timeout", 10000)
+    chk.add(model_fs)
+    chk.add(better)
+    r = chk.check()
+    count(summary, f"run_c07_reported_optimum_vs_model_assertion_list_{r}")
+    if r != z3.sat:
+        return None
+    m = chk.model()
+    chk2 = z3.Solver()
+    chk2.set("timeout", 10000)
+    chk2.add(own)
+    chk2.add(better)
+    if chk2.check() != z3.unsat:
+        return None             # the library's own system admits it too: an early stop, judged by the other probes
+    vals = {d.name(): str(m[d]) for d in m.decls() if d.arity() == 0}
+    return {"what": f"the library reports {v} as the optimum and its own constraint system admits nothing better, but the "
+                    f"assertion list of the model (the documented meaning of the same declarations) admits a schedule "
+                    f"with value {smrun.value_of(m, target)}",
+            "better_interpretation": {k: vals[k] for k in sorted(vals)[:60]}}
 
 
 def search_residue(script, summary):
@@ -290,6 +364,23 @@ def valid_for(script, sol_model):
 
 
 # ---------------------------------------------------------------------------------- C12
+def views_disagree(sol):
+    """a returned schedule lists every assignment twice — per task (`assigned_resources`) and per resource
+    (`assignments`); the two views must tell the same story (C11_task_iff_resource_admitted), in every solution of an
+    enumeration"""
+    for tn, t in sol.tasks.items():
+        for r in t.assigned_resources:
+            if r not in sol.resources or not any(a[0] == tn for a in sol.resources[r].assignments):
+                return f"task {tn} lists resource {r}, whose own assignments do not mention {tn}"
+        if len(set(t.assigned_resources)) != len(t.assigned_resources):
+            return f"task {tn} lists a resource twice: {t.assigned_resources}"
+    for rn, r in sol.resources.items():
+        for a in r.assignments:
+            if a[0] not in sol.tasks or rn not in sol.tasks[a[0]].assigned_resources:
+                return f"resource {rn} is assigned to task {a[0]}, which does not list it"
+    return None
+
+
 def run_c12(script, rng, summary):
     script = [d for d in script if d["op"] != "objective"]
     truth, status = enumerate_timings(script, cap=300)
@@ -301,6 +392,7 @@ def run_c12(script, rng, summary):
     count(summary, "run_c12")
     summary["nontrivial"].append("run" + str(hash(str(script))))
     seen = []
+    returned = []
     cfg = {"debug": True} if rng.random() < 0.3 else {}
     count(summary, "run_c12_cfg:" + ("debug" if cfg else "default"))
     if rng.random() < 0.5 and real.problem.horizon is not None:
@@ -331,7 +423,18 @@ def run_c12(script, rng, summary):
                 if tm not in truth:
                     return {"what": f"returned timing is not a valid schedule of the problem: {tm}"}
                 seen.append(tm)
+                # delayed requirements of optional tasks: an unscheduled task's busy interval can start at a
+                # non-negative instant (recorded finding F19), where the two views differ on the unchanged tree
+                bad = None if any(d["op"] == "require" and (d.get("delay_in") or d.get("early_out")) for d in script) \
+                    else views_disagree(sol)
+                if bad:
+                    return {"what": f"solution number {len(seen)} of the enumeration: {bad}", "returned": len(seen)}
+                returned.append((sol, sol.to_json()))
                 sol = s.find_another_solution()
+            for k, (obj, text) in enumerate(returned):
+                if obj.to_json() != text:
+                    return {"what": f"solution number {k + 1} of the enumeration changed after it was returned "
+                                    f"(it is no longer the schedule that was handed out)", "returned": len(seen)}
         except Exception as e:  # noqa: BLE001
             return {"what": f"enumeration raised {type(e).__name__}: {e}", "returned": len(seen)}
     count(summary, f"run_c12_enumerated_{min(len(truth), 20)}")
@@ -360,7 +463,65 @@ def run_c12(script, rng, summary):
 
 
 # ---------------------------------------------------------------------------------- C13
+def second_solver_after_extension(script, rng, summary):
+    """a problem is solved, then extended (a new task on a worker that is already in use), then solved by a NEW solver
+    object: the second solver must answer for the extended problem as a solver on a freshly built copy would"""
+    real = pslib.Real()
+    if any(r != "ok" for r in real.run(script)) or real.problem is None:
+        return None
+    used = [n for n, w in real.workers.items() if w._busy_intervals and "_CumulativeWorker_" not in n]
+    if not used:
+        return None
+    w = rng.choice(used)
+    first = rng.choice(["solve", "initialize", "export"])
+    with smrun.silent(), no_stderr():
+        try:
+            s1 = ps.SchedulingSolver(problem=real.problem, max_time=3)
+            if first == "solve":
+                s1.solve()
+            elif first == "initialize":
+                s1.initialize()
+            else:
+                s1.export_to_smt2("/dev/null")
+        except Exception:  # noqa: BLE001
+            return None
+    ext = [{"op": "task", "name": "Tlate", "kind": ("fixed", rng.choice([1, 2, 3])), "optional": False},
+           {"op": "require", "task": "Tlate", "res": ("worker", w)}]
+    if any(real.step(d) != "ok" for d in ext):
+        return None
+    script2 = [d for d in script if d["op"] != "objective"] + ext
+    if any(d["op"] == "objective" for d in script):
+        return None
+    _, base2 = smrun.fresh_assertions(script2)
+    if any(z3.is_quantifier(a) for a in base2):
+        return None
+    chk = z3.Solver(); chk.set("timeout", 10000); chk.add(base2)
+    truth = str(chk.check())
+    if truth == "unknown":
+        return None
+    count(summary, "run_c13_second_solver_after_extension")
+    with smrun.silent(), no_stderr():
+        try:
+            s2 = ps.SchedulingSolver(problem=real.problem, max_time=5)
+            sol2 = s2.solve()
+        except Exception as e:  # noqa: BLE001
+            return {"what": f"a second solver on the extended problem raised {type(e).__name__}: {e}", "extension": ext}
+    if bool(sol2) != (truth == "sat"):
+        return {"what": f"after {first}() on a first solver the problem got a new task on worker {w}; a second, new solver "
+                        f"reports {'a schedule' if sol2 else 'no schedule'} while the extended problem is {truth}", "extension": ext}
+    if sol2:
+        bad = smrun.invalid_against(base2, s2._model)
+        if bad:
+            return {"what": f"after {first}() on a first solver the problem got a new task on worker {w}; the schedule a "
+                            f"second, new solver returns violates the extended problem", "violated": bad[:3], "extension": ext}
+    return None
+
+
 def run_c13(script, rng, summary):
+    if rng.random() < 0.45:
+        v = second_solver_after_extension(script, rng, summary)
+        if v:
+            return v
     real0, base = smrun.fresh_assertions(script)
     chk = z3.Solver()
     chk.set("timeout", 15000)
@@ -543,6 +704,15 @@ def toggle_sequence(script, real0, rng, summary):
                 t0 = time.time()
                 sol = s.solve()
                 rec["first"] = bool(sol)
+                if not sol:
+                    # "no solution found" is a verdict only when z3's answer was definite: under a logic that does
+                    # not cover the problem (or on a timeout) z3 answers `unknown`, which the property excludes
+                    try:
+                        rec["reason_unknown"] = str(s._solver.reason_unknown() or "")
+                    except Exception:  # noqa: BLE001
+                        rec["reason_unknown"] = ""
+                    if rec["reason_unknown"]:
+                        rec["indefinite"] = True
                 if sol:
                     setup = smrun.objective_setup(real, cfg, script)
                     if setup is not None:
@@ -565,6 +735,9 @@ def toggle_sequence(script, real0, rng, summary):
         return None
     if max(a.get("wall", 99), b.get("wall", 99)) > 6:
         count(summary, "run_c15_toggle_sequence_not_compared_time_budget")
+        return None
+    if a.get("indefinite") or b.get("indefinite"):
+        count(summary, "run_c15_toggle_sequence_not_compared_z3_answered_unknown")
         return None
     for k, what in (("first", "the verdict of solve()"), ("second", "whether find_another_solution() finds a schedule"),
                     ("value", "the optimum of solve()")):
@@ -622,6 +795,21 @@ def run_c19(script, rng, summary):
         count(summary, "run_c19_forced_optional_constraints_conflict")
     if rng.random() < 0.25:
         extra = []          # leave the problem as generated (usually feasible): verdict part
+    # constraint names are the user's: they may coincide with names the encoding uses elsewhere (the scheduled flag of
+    # an optional task; a name followed by an index) — the verdict and the diagnosis must not depend on them
+    opt = [n for n in ts if real.tasks[n].optional]
+    if opt and rng.random() < 0.15:
+        o = rng.choice(opt)
+        extra = [{"op": "constraint", "c": ("forceSchedule", o, False), "name": f"{o}_scheduled"}]
+        count(summary, "run_c19_constraint_named_like_a_scheduled_flag")
+    elif extra and rng.random() < 0.35:
+        ren = {"pin_a": "Win", "pin_b": "Win_1", "pin_c": "Win_0", "pin_d": "Win_2"}
+        if opt and rng.random() < 0.4:
+            ren = {"pin_b": f"{rng.choice(opt)}_scheduled"}
+        for d in extra:
+            if d.get("name") in ren:
+                d["name"] = ren[d["name"]]
+        count(summary, "run_c19_colliding_constraint_names")
     script2 = [d for d in script if d["op"] != "objective"] + extra
     real = pslib.Real()
     res = real.run(script2)
